@@ -248,6 +248,111 @@ def gen(rng, count, selector_only=False):
         yield dict(unit='stv', cfg=cfg, votes=votes, n=n, prev=[], caps=caps)
 
 
+def _quota_of(cfg_quota, total, n):
+    """the quota the configured function gives (3 droop, 1 hare, 4 hagenbach-bischoff), None if no quota"""
+    from fractions import Fraction
+    if cfg_quota == 3:
+        return Fraction(int(Fraction(total, n + 1)) + 1)
+    if cfg_quota == 1:
+        return Fraction(total, n)
+    if cfg_quota == 4:
+        return Fraction(total, n + 1)
+    return None
+
+
+def gen_boundary(rng, count, selector_only=False):
+    """Boundary profiles the random stream almost never meets:
+    exact - some candidate's first preferences equal the quota exactly (zero surplus) while seats stay open, with other
+            ballots naming that candidate as a later preference;
+    tiny  - weights 1..3, so exact quota hits, level totals and zero surpluses are common;
+    multi - two or three leaders pass the quota in the same count on ballots whose LOWER ranks are shared;
+    sharedx - shared ranks whose members all leave the contest before a later preference / with none (exhaustion of split parts)."""
+    from fractions import Fraction
+    made = 0
+    tries = 0
+    while made < count and tries < count * 20:
+        tries += 1
+        m = rng.randint(3, 6)
+        ids = list(range(1, m + 1))
+        style = rng.choice(['exact', 'exact', 'tiny', 'tiny', 'multi', 'sharedx'])
+        qk = rng.choice([3, 3, 1, 4])
+        votes, seen = [], set()
+
+        def add(b, w):
+            if repr(b) in seen or w <= 0:
+                return
+            seen.add(repr(b))
+            votes.append([b, w])
+        if style == 'tiny':
+            for _ in range(rng.randint(3, 9)):
+                add(rand_ballot(rng, ids, rng.choice([0, 0, 0.3])), rng.randint(1, 3))
+        elif style == 'multi':
+            leaders = ids[:rng.randint(2, 3)]
+            for l in leaders:
+                for _ in range(rng.randint(1, 2)):
+                    rest = [x for x in ids if x != l]
+                    rng.shuffle(rest)
+                    k = rng.randint(2, min(3, len(rest)))
+                    b = [l, sorted(rest[:k])] + rest[k:k + rng.randint(0, 2)]
+                    add(b, rng.randint(20, 60))
+            for _ in range(rng.randint(1, 4)):
+                add(rand_ballot(rng, ids, 0.3), rng.randint(1, 25))
+        elif style == 'sharedx':
+            for _ in range(rng.randint(2, 4)):
+                sub = ids[:]
+                rng.shuffle(sub)
+                k = rng.randint(2, 3)
+                b = [sorted(sub[:k])] + (sub[k:k + 1] if rng.random() < 0.5 else [])
+                if rng.random() < 0.4:
+                    b = [sub[-1]] + b
+                add(b, rng.randint(1, 12))
+            for _ in range(rng.randint(1, 4)):
+                add(rand_ballot(rng, ids, 0), rng.randint(1, 30))
+        else:
+            for _ in range(rng.randint(3, 8)):
+                add(rand_ballot(rng, ids, rng.choice([0, 0, 0.2])), rng.randint(1, 40))
+        cs = sorted({x for b, _ in votes for i in b for x in ([i] if isinstance(i, int) else i)})
+        if len(cs) < 2:
+            continue
+        n = rng.randint(2, len(cs)) if len(cs) > 2 and rng.random() < 0.85 else rng.randint(1, len(cs))
+        if style == 'exact':
+            # adjust one ballot headed by `a` until a's first preferences equal the quota exactly
+            heads = [i for i, (b, _) in enumerate(votes) if b and isinstance(b[0], int)]
+            if not heads:
+                continue
+            i0 = rng.choice(heads)
+            a = votes[i0][0][0]
+            hit = None
+            for w in range(1, 400):
+                votes[i0][1] = w
+                total = sum(x for _, x in votes)
+                first = sum(x for b, x in votes if b and b[0] == a)
+                if _quota_of(qk, total, n) == first:
+                    hit = w
+                    if rng.random() < 0.6:
+                        break
+            if hit is None:
+                continue
+            votes[i0][1] = hit
+            # somebody else's ballot names `a` next (the transfer that must skip the elected candidate)
+            others = [x for x in cs if x != a]
+            o = rng.choice(others)
+            add([o, a] + [x for x in others if x != o][:rng.randint(0, 2)], rng.randint(1, 3))
+            total = sum(x for _, x in votes)
+        if rng.random() < 0.3:
+            k = rng.choice([2, 10 ** 20])
+            votes = [[b, w * k] for b, w in votes]
+        cfg = dict(quota=qk, ae=rng.randint(0, 1), mq=rng.randint(0, 1) if rng.random() < 0.2 else 0,
+                   step=rng.choice([-1, -1, -1, -2]))
+        if selector_only or rng.random() < 0.8:
+            caps = [[k, 1] for k in cs]
+        else:
+            caps = [[k, rng.randint(1, 2)] for k in cs]
+            n = rng.randint(1, sum(v for _, v in caps))
+        made += 1
+        yield dict(unit='stv', cfg=cfg, votes=votes, n=n, prev=[], caps=caps)
+
+
 def corpus():
     import os, json, glob
     for p in sorted(glob.glob(os.path.join(common.VERIF, 'corpus', ID, '*.json'))):
@@ -258,6 +363,7 @@ def explore(ctx, widen=1):
     kw = dict(canon=canon, nontrivial=nontrivial, spec=spec, known_class=known_class, limit=20)
     ctx.differential('corpus', corpus(), model_line, impl, **kw)
     ctx.differential('random', gen(ctx.rng, ctx.n(1500, 25000) * widen), model_line, impl, **kw)
+    ctx.differential('boundary', gen_boundary(ctx.rng, ctx.n(900, 12000) * widen), model_line, impl, **kw)
 
 
 def replay(ctx, case, stream=None):
